@@ -161,6 +161,7 @@ pub fn generic_probe_program(names: &[&str]) -> Program {
             trait_name: "IfA".into(),
             explicit_as: false,
             assoc: vec![],
+            assoc_names: vec![],
             style: CustomStyle::Plain,
             methods: vec![method("ping", Kind::Exec, vec![arg("n", Ty::U32)]), method("peek", Kind::Query, vec![])],
             msg_attrs: vec![],
@@ -185,6 +186,36 @@ pub fn c19b_probes(ctx: &Ctx) -> Vec<Probe> {
             what: format!("a generic contract whose type parameter is called `{n}` does not compile"),
             nontrivial: true,
             class: if n.len() == 1 { "param:single-letter".into() } else { "param:conventional-word".into() },
+            item_line: None,
+        });
+    }
+    // the same names as *associated types of an interface* (an interface's parameters)
+    for n in &names {
+        if n == "Error" {
+            continue;
+        }
+        let mut p = generic_probe_program(&["T0"]);
+        p.interfaces = vec![Interface {
+            module: "if_a".into(),
+            trait_name: "IfA".into(),
+            explicit_as: false,
+            assoc: vec![Ty::Rec],
+            assoc_names: vec![n.clone()],
+            style: CustomStyle::Plain,
+            methods: vec![
+                method("ping", Kind::Exec, vec![arg("n", Ty::Assoc(0))]),
+                Method { resp: RespTy::EchoA, ..method("peek", Kind::Query, vec![arg("k", Ty::Opt(Box::new(Ty::Assoc(0))))]) },
+                method("poke", Kind::Sudo, vec![arg("v", Ty::Vec(Box::new(Ty::Assoc(0))))]),
+            ],
+            msg_attrs: vec![],
+        }];
+        out.push(Probe {
+            unit: Unit { name: format!("assoc_{}", n.to_lowercase()), source: unit_source("sylvia", &render::render_source(&p, &opts)) },
+            want: Want::Compiles,
+            key: format!("assoc-name:{n}"),
+            what: format!("an interface whose associated type is called `{n}` does not compile"),
+            nontrivial: true,
+            class: if n.len() == 1 { "assoc:single-letter".into() } else { "assoc:conventional-word".into() },
             item_line: None,
         });
     }
@@ -694,6 +725,7 @@ pub fn c16_probes() -> Vec<Probe> {
             trait_name: "IfA".into(),
             explicit_as: false,
             assoc: vec![Ty::Rec],
+            assoc_names: vec![],
             style: CustomStyle::Plain,
             methods: vec![q],
             msg_attrs: vec![],
